@@ -34,11 +34,23 @@ import gtirb_rewriting._auxdata as _auxdata
 from .intervalutils import join_byte_intervals, split_byte_interval
 
 
+def _is_layout_required(module: gtirb.Module) -> bool:
+    """
+    Determine if the module needs to be laid out. Sections without byte
+    intervals are not considered: they have no address, and laying the module
+    out (which moves everything else) does not give them one.
+    """
+    empty_sections = {
+        sect.name for sect in module.sections if not sect.byte_intervals
+    } - {sect.name for sect in module.sections if sect.byte_intervals}
+    return is_module_layout_required(module, empty_sections)
+
+
 @contextlib.contextmanager
 def prepare_for_rewriting(module: gtirb.Module, nop: bytes) -> Iterator[None]:
     """Pre-compute data structure to accelerate rewriting."""
 
-    if is_module_layout_required(module):
+    if _is_layout_required(module):
         layout_module(module)
     else:
         assign_integral_symbols(module)
@@ -64,5 +76,5 @@ def prepare_for_rewriting(module: gtirb.Module, nop: bytes) -> Iterator[None]:
         for interval in partition[1:]:
             interval.section = None
 
-    if is_module_layout_required(module):
+    if _is_layout_required(module):
         layout_module(module)
